@@ -19,6 +19,14 @@ Inductive gclass :=
 | GVectorAxes              (* vector-shaped operand with explicit axes *)
 | GBadAxes                 (* axes that are not a permutation *)
 | GFlagUnsound             (* flagged contiguous (no iterator needed) although strides are not the default ones *)
+| GLenOne                  (* an operand (or destination) window of length one: the isScalar paths of the dispatch *)
+| GDestRefused             (* reuse/incr destination whose window length differs from the result size (strided view) *)
+| GDestAlias               (* reuse/incr destination shares storage with an operand *)
+| GOrderMix                (* column-major operand or destination *)
+| GScalarLeftView          (* scalar-on-left comparison over a tensor that needs an iterator *)
+| GShapeSoft               (* shapes equal only up to the (n) / (n,1) / (1,n) identification *)
+| GModeUnsupported         (* option mode the operation mishandles (MinBetween/MaxBetween unsafe, incr) *)
+| GScalarShaped            (* rank-0 tensor operand (package functions route it to the scalar form) *)
 | GOther.
 
 Definition slice_count_zero (s : slice) (dim : Z) : bool :=
@@ -123,4 +131,27 @@ Definition guard_copy (dst src : dense) : gclass :=
     else GOk
   | GOk, g => g
   | g, _ => g
+  end.
+
+(* elementwise operations: operands [ops] (tensor operands in order), optional destination *)
+Definition overlaps (x y : dense) : bool :=
+  Nat.eqb (d_buf x) (d_buf y)
+  && (d_off x <? d_off y + d_len y) && (d_off y <? d_off x + d_len x).
+
+Definition guard_elementwise (ops : list dense) (dst : option dense) (rsize : Z) (rshape : list Z) : gclass :=
+  let bad := filter (fun d => match guard_read d with GOk => false | _ => true end) ops in
+  match bad with
+  | d :: _ => guard_read d
+  | [] =>
+    if existsb (fun d => is_scalar (shp (d_ap d))) ops then GScalarShaped
+    else if existsb (fun d => d_len d =? 1) ops || match dst with Some d => d_len d =? 1 | None => false end then GLenOne
+    else match dst with
+         | Some d =>
+           if negb (d_len d =? rsize) || (d_view d && negb (list_eqb (shp (d_ap d)) rshape)) then GDestRefused
+           else if existsb (overlaps d) ops then GDestAlias
+           else if is_cm (ord (d_ap d)) || existsb (fun x => is_cm (ord (d_ap x))) ops then GOrderMix
+           else match guard_read d with GOk => GOk | g => g end
+         | None =>
+           if existsb (fun x => is_cm (ord (d_ap x))) ops then GOrderMix else GOk
+         end
   end.
